@@ -214,11 +214,9 @@ func (c *Conn) waitCloseHandshake() error {
 	defer c.readMu.unlock()
 	c.vEv("WchLocked", c.msgReader.payloadLength, 0, 0, 0)
 
-	for i := int64(0); i < c.msgReader.payloadLength; i++ {
-		_, err := c.br.ReadByte()
-		if err != nil {
-			return err
-		}
+	err = c.discardFramePayload(ctx, c.msgReader.payloadLength)
+	if err != nil {
+		return err
 	}
 
 	for {
@@ -227,13 +225,30 @@ func (c *Conn) waitCloseHandshake() error {
 			return err
 		}
 
-		for i := int64(0); i < h.payloadLength; i++ {
-			_, err := c.br.ReadByte()
-			if err != nil {
-				return err
-			}
+		err = c.discardFramePayload(ctx, h.payloadLength)
+		if err != nil {
+			return err
 		}
 	}
+}
+
+// discardFramePayload reads and drops n payload bytes. It goes through readFramePayload so that
+// the read is bounded by ctx like every other read: a peer that stalls in the middle of a frame,
+// or never ends one, must not be able to hold up Close beyond its timeout.
+func (c *Conn) discardFramePayload(ctx context.Context, n int64) error {
+	var buf [512]byte
+	for n > 0 {
+		p := buf[:]
+		if int64(len(p)) > n {
+			p = p[:n]
+		}
+		k, err := c.readFramePayload(ctx, p)
+		n -= int64(k)
+		if err != nil {
+			return err
+		}
+	}
+	return nil
 }
 
 func (c *Conn) waitGoroutines() error {
